@@ -90,7 +90,7 @@ Definition vres {A} (f : A -> val) (r : Res A) : val :=
   | Panic => VL [VI 2%Z]
   | Diverge => VL [VI 3%Z]
   end.
-Definition vbad : val := VL [VI 9%Z].   (* executor called with malformed arguments *)
+Definition vbad : val := VL [VI (-9999)%Z].   (* executor called with malformed arguments *)
 Definition vopt {A} (f : A -> val) (o : option A) : val :=
   match o with Some a => VL [f a] | None => VL [] end.
 
